@@ -266,10 +266,27 @@ fn worker_loop(o: Opts) {
                 let buf = get_bytes(&op);
                 let np = ps.entry(p.clone()).or_default();
                 if kind == "flat" {
-                    let r = catch_unwind(AssertUnwindSafe(|| np.parse_bytes_as_netflow_common_flowsets(&buf)));
+                    // a twin with the same caches and allowed set gives the per-packet common views of this buffer
+                    let mut twin = NetflowParser::default();
+                    twin.allowed_versions = np.allowed_versions.clone();
+                    twin.v9_parser.templates = np.v9_parser.templates.clone();
+                    twin.v9_parser.options_templates = np.v9_parser.options_templates.clone();
+                    twin.ipfix_parser = np.ipfix_parser.clone();
+                    let r = catch_unwind(AssertUnwindSafe(|| {
+                        let items = twin.parse_bytes(&buf);
+                        let per: Vec<Value> = items
+                            .iter()
+                            .map(|it| match it.as_netflow_common() {
+                                Ok(c) => Value::Array(c.flowsets.iter().map(project::flow).collect()),
+                                Err(_) => json!([]),
+                            })
+                            .collect();
+                        let fl = np.parse_bytes_as_netflow_common_flowsets(&buf);
+                        (per, fl)
+                    }));
                     match r {
-                        Ok(fl) => json!({"e": "flatret", "p": p, "flows": fl.iter().map(project::flow).collect::<Vec<_>>(),
-                                         "caches": caches(&ps)}),
+                        Ok((per, fl)) => json!({"e": "flatret", "p": p, "flows": fl.iter().map(project::flow).collect::<Vec<_>>(),
+                                         "per_item": per, "caches": caches(&ps)}),
                         Err(_) => json!({"e": "panic", "p": p, "where": "flat", "msg": LAST_PANIC.lock().unwrap().clone()}),
                     }
                 } else {
